@@ -194,4 +194,62 @@ def sampSim {α} : List (Nat × SampItem α) → Bool → SampSt α → TL α
 def sampSrcItems {α} (msgs : TL α) : List (Nat × SampItem α) := msgs.map (fun m => (m.1, SampItem.src m.2))
 def sampTickItems {α} (ticks : List (Nat × SampEv)) : List (Nat × SampItem α) := ticks.map (fun m => (m.1, SampItem.samp m.2))
 
+/-! ## Resources: what is live, what `dispose` of the returned disposable releases (C02/C03 support)
+
+Small-step version of `simRun` with the resources made explicit: the source subscription (`srcLive`), the scheduled
+actions still in the queue (`timersOf`), the fallback subscription of timeout (`otherLive`).  Every one of the operators
+here returns `CompositeDisposable(source subscription, timer container)` (`_debounce.py`: `(subscription, cancelable)`,
+`_timeout.py`: `(subscription, timer)` with the fallback assigned into `subscription`, `_takewithtime.py` &c.:
+`(disp, source subscription)`), so disposing it — which is also what the subscriber's `AutoDetachObserver` does on a
+terminal — disposes the source subscription, the fallback, and the action HELD by the timer container (`held st`).
+That this is *every* scheduled action is the invariant proved in `RxProofs/C02Timed.lean`. -/
+
+structure SimSt (σ α P : Type) where
+  clk : Nat
+  queue : SQueue α P
+  st : σ
+  srcLive : Bool := true
+  otherLive : Bool := false
+
+def timersOf {α P} (q : SQueue α P) : List P :=
+  q.filterMap (fun it => match it.2 with | .timer p => some p | .src _ => none)
+
+def SimSt.liveCount {σ α P} (x : SimSt σ α P) : Nat :=
+  x.srcLive.toNat + (timersOf x.queue).length + x.otherLive.toNat
+
+/-- dispose the disposable returned by `subscribe` -/
+def SimSt.dispose {σ α P} [DecidableEq P] (held : σ → Option P) (x : SimSt σ α P) : SimSt σ α P :=
+  { x with
+    queue := x.queue.filter (fun it => match it.2 with | .timer p => !(decide (held x.st = some p)) | .src _ => true),
+    srcLive := false, otherLive := false }
+
+def simStep {σ α β P} [DecidableEq P] (op : SimOp σ α β P) (held : σ → Option P) (x : SimSt σ α P) :
+    Option (SimSt σ α P × TL β) :=
+  match x.queue with
+  | [] => none
+  | (due, .src n) :: q =>
+    if x.srcLive then
+      let r := op.onSrc (max x.clk due) x.st n
+      let x' : SimSt σ α P := { x with clk := max x.clk due, queue := applyEff r.2.2 q, st := r.1 }
+      some (if hasTerm r.2.1 then x'.dispose held else x', at_ (max x.clk due) r.2.1)
+    else some ({ x with clk := max x.clk due, queue := q }, [])       -- the subscription's observer is stopped
+  | (due, .timer p) :: q =>
+    let r := op.onTimer (max x.clk due) x.st p
+    let x' : SimSt σ α P :=
+      { x with clk := max x.clk due, queue := q, st := r.1,
+               srcLive := x.srcLive && !r.2.2, otherLive := x.otherLive || r.2.2 }   -- the fallback replaces the source
+    some (if hasTerm r.2.1 then x'.dispose held else x', at_ (max x.clk due) r.2.1)
+
+/-- what a handler may do to the timer container, in terms of what the container holds afterwards -/
+structure HeldLaws {σ α β P} (op : SimOp σ α β P) (held : σ → Option P) : Prop where
+  arm : ∀ now s n due p, (op.onSrc now s n).2.2 = TEff.arm due p → held (op.onSrc now s n).1 = some p
+  keep : ∀ now s n p, (op.onSrc now s n).2.2 = TEff.keep → held s = some p → held (op.onSrc now s n).1 = some p
+
+/-- at most one scheduled action, and it is the one the timer container holds -/
+def SimSt.Owned {σ α P} (held : σ → Option P) (x : SimSt σ α P) : Prop :=
+  (timersOf x.queue).length ≤ 1 ∧ ∀ p ∈ timersOf x.queue, held x.st = some p
+
+def debHeld {α} (s : DebSt α) : Option Nat := s.timer.map (·.2)
+def toHeld (s : ToSt) : Option ToTimer := s.timer
+
 end Timed
